@@ -212,6 +212,11 @@ func NewClient(config *Config, r *Router, errorHandler func(error)) (c *Client, 
 	c = new(Client)
 	c.config = config
 	c.router = r
+	if errorHandler == nil {
+		// The callback is optional, like the event handler: without one, errors of the receiver are dropped
+		// instead of calling a nil function on a goroutine the application cannot recover in.
+		errorHandler = func(error) {}
+	}
 	c.ErrorHandler = errorHandler
 
 	if c.config.ConnectTimeout == 0 {
